@@ -7,7 +7,10 @@ PROPS["C02"] = dict(
          "Gosched calls; plus a hammer unit: 2..8 threads race Create on one fresh key (or CasByVersion on one version) behind a spin barrier "
          "for 200..1500(4000) rounds, with a context whose Err() yields the processor in half of the cases, winners counted directly; and a squeeze unit that forces pairs of in-memory operations (Create/Create, Create/Put, CAS/CAS, CAS/Put, CAS/Delete) "
          "into the order 'A's first critical section, all of B, A's next critical section' through the storage mutex (overlay accessor, FIFO hand-over of a "
-         "starving sync.Mutex). A quarter of the PutMany batches carry per-record expiry flags and may repeat a key (the last record of a key is its per-key effect). Multi-key calls are split into per-key sub-operations sharing the call/return stamps. non-trivial = the recorded history "
+         "starving sync.Mutex). A quarter of the PutMany batches carry per-record expiry flags and may repeat a key (the last record of a key is its per-key effect). A rediswire unit owns the schedule of the Redis backend at COMMAND granularity: every thread (2-4, programs of <= 4 ops, or shaped races: creators/deleters on one key, read-then-CAS, two single calls against each other) has its own "
+         "client whose connection parks every command until the scheduler releases it; exactly one command is in flight at a time and the release order is a drawn, replayable list, so the interleavings of SET NX / GET / WATCH / MULTI..EXEC / DEL / MSET that make up "
+         "concurrent Create, CasByVersion, PutMany ... calls are explored directly; in a third of these cases some writes carry an expiry 1 ms ahead, which the un-aged miniredis keeps (a server with a lagging clock): such a record may be found or be gone at any later "
+         "step of the model, every later write without expiry must stick. The squeeze unit also forces a Put to be applied between the expiry of a record and the expiry handling of a waiter parked on it, and between the two halves of a Get/GetMany that meets an expired record (the Put's record must survive). Multi-key calls are split into per-key sub-operations sharing the call/return stamps. non-trivial = the recorded history "
          "has two overlapping operations of different threads on one key of which at least one is a write; distinct = hash of (programs, "
          "call/return stamp pattern observed)",
     assumptions=["schedules are sampled by the Go runtime, not enumerated; the deciding step is the checker on each recorded history",
